@@ -109,20 +109,19 @@ Qed.
 
 (* state S1: m is in the skip set. Everything about m stays in the remainder, provided alternation holds and,
    after the (held) exists, the next thing about m is an expunge. *)
-Lemma pop_held_all m rs : forall skip readd p q,
-  existsb (N.eqb m) skip = true -> alt m rs ->
+Definition nextexp (m : msgid) (rs : list responder) : Prop :=
+  match filter (about m) rs with [] => True | y :: _ => is_rexpunge y = true end.
+
+(* two states: S1 (m in skip) and S2 (m not in skip, the last thing about m was a held exists, so the next thing about
+   m must be an expunge): nothing about m is popped *)
+Lemma pop_held_all_gen m rs : forall skip readd p q,
+  alt m rs ->
+  (existsb (N.eqb m) skip = true \/ (existsb (N.eqb m) skip = false /\ nextexp m rs)) ->
   pop_go false skip readd rs = (p, q) ->
   filter (about m) p = [] /\ filter (about m) q = filter (about m) rs.
 Proof.
-  (* strengthen: two states, S1 (m in skip) and S2 (m not in skip, last thing about m was a held exists, so the
-     next thing about m must be an expunge) *)
-  assert (G: forall rs skip readd p q,
-     alt m rs ->
-     (existsb (N.eqb m) skip = true \/
-      (existsb (N.eqb m) skip = false /\ match filter (about m) rs with [] => True | y :: _ => is_rexpunge y = true end)) ->
-     pop_go false skip readd rs = (p, q) ->
-     filter (about m) p = [] /\ filter (about m) q = filter (about m) rs).
-  { clear rs. induction rs as [|r t IH]; intros skip readd p q Halt Hst H.
+  unfold nextexp.
+  induction rs as [|r t IH]; intros skip readd p q Halt Hst H.
     - cbn [pop_go] in H. injection H as <- <-. split; reflexivity.
     - apply pop_go_cons in H as (skip' & readd' & popped & p' & q' & Hs & E & -> & ->).
       inversion Hs as [m' Hr | m' u f tg og Hr Hin' | m' u f tg og Hr Hin' | m' f op au si fo Hr Hin' | m' f op au si fo Hr Hin']; subst.
@@ -172,9 +171,14 @@ Proof.
       + (* fetch, held *)
         destruct (IH _ _ _ _ Halt Hst E) as [A B]. split; [exact A|exact B].
       + (* fetch, popped *)
-        destruct (IH _ _ _ _ Halt Hst E) as [A B]. split; [exact A|exact B]. }
-  intros skip readd p q Hin Halt H. exact (G rs skip readd p q Halt (or_introl Hin) H).
+        destruct (IH _ _ _ _ Halt Hst E) as [A B]. split; [exact A|exact B].
 Qed.
+
+Lemma pop_held_all m rs : forall skip readd p q,
+  existsb (N.eqb m) skip = true -> alt m rs ->
+  pop_go false skip readd rs = (p, q) ->
+  filter (about m) p = [] /\ filter (about m) q = filter (about m) rs.
+Proof. intros skip readd p q Hin Halt H. exact (pop_held_all_gen m rs skip readd p q Halt (or_introl Hin) H). Qed.
 
 (* From a skip set without m: what is popped about m is a prefix of the per-message sequence, and it stops at the first
    expunge of m. Hence an exists of m is never handled before an expunge of m that was queued earlier. *)
